@@ -37,6 +37,10 @@ def run(ctx, num, depth=45, cfg="Full_walk.cfg", label="product_walks", module="
         ctx.seed = seed0
     ctx.replay(w, pre, observe, ordered=node_check.tick_unordered, label=label)
     if module == "MCFull" and cfg == "Full_walk.cfg":
+        # a build with more RPDOs than TPDOs (CO_RPDO_N = 4, CO_TPDO_N = 2): the two RPDOs of the product sit in the highest slots (the SDO
+        # frames naming 14xxh / 16xxh are re-indexed, nothing else changes); the loops over both PDO tables run in the context of every service
+        sub = common.thin(w, max(200, len(w) // 4), ctx.seed + 5)
+        ctx.replay(pdo_check.shifted(sub, 2, 0), pre, observe, variant="r4t2", defines=pdo_check.UNEQUAL["r4t2"], ordered=node_check.tick_unordered, label=label + "_r4t2")
         # second configuration: node id 127, SYNC producer on at boot, heartbeat producer off at boot, TPDO of type 255 with an event time
         # only, TPDO on every SYNC, synchronous RPDO, asynchronous RPDO with a dummy entry, EMCY table of 12 errors
         run(ctx, max(40, num // 2), depth, "FullB_walk.cfg", label + "_B", "MCFullB")
